@@ -63,4 +63,38 @@ theorem global_ext (g₁ g₂ : Global P S A) (hp : g₁.params = g₂.params)
       have h2 : s1 = s2 := funext fun i => (Prod.mk.inj (hc i)).2
       rw [h1, h2]
 
+theorem count_flat (cs : List Nat) (n i : Nat) :
+    ((cs.zipIdx n).flatMap (fun (c, j) => List.replicate c j)).count i =
+      if n ≤ i then cs.getD (i - n) 0 else 0 := by
+  induction cs generalizing n with
+  | nil => simp
+  | cons c cs ih =>
+    rw [List.zipIdx_cons, List.flatMap_cons, List.count_append, ih (n + 1), List.count_replicate]
+    by_cases h1 : n = i
+    · subst h1
+      have : ¬ (n + 1 ≤ n) := by omega
+      simp [this]
+    · by_cases h2 : n ≤ i
+      · have h3 : n + 1 ≤ i := by omega
+        have h4 : i - n = (i - (n + 1)) + 1 := by omega
+        have h5 : ¬ ((n == i) = true) := by simpa using h1
+        rw [h4, List.getD_cons_succ]
+        simp [h5, h2, h3]
+      · have h3 : ¬ (n + 1 ≤ i) := by omega
+        have h5 : ¬ ((n == i) = true) := by simpa using h1
+        simp [h5, h2, h3]
+
+theorem serial_count (sched : List Nat) (k : Nat) (hk : ∀ i ∈ sched, i < k) (i : Nat) :
+    ((((List.range k).map (fun i => sched.count i)).zipIdx).flatMap
+        (fun (c, j) => List.replicate c j)).count i = sched.count i := by
+  rw [count_flat]
+  simp only [Nat.zero_le, if_true, Nat.sub_zero]
+  by_cases h : i < k
+  · simp [List.getD_eq_getElem?_getD, h]
+  · have : sched.count i = 0 := by
+      rw [List.count_eq_zero]
+      intro hi
+      exact h (hk i hi)
+    simp [List.getD_eq_getElem?_getD, h, this]
+
 end CelerVerif.Streams
